@@ -100,9 +100,9 @@ def replay_mesh(model, cls="SinglePhaseReservoir", nx=5):
             def m_scaled_func(p):
                 return kk * np.asarray(base.m_scaled_func(p), float)
 
-            @staticmethod
-            def alpha(m):
-                return base.alpha(np.asarray(m, float) / kk)
+            # the diffusivity lookup stays the scipy interpolator it really is (its nodes .x / .y are public)
+            alpha = interp1d(np.asarray(base.alpha.x, float) * kk, np.asarray(base.alpha.y, float), bounds_error=False,
+                             fill_value=(float(np.min(base.alpha.y)), float(np.max(base.alpha.y))))
         fluids.append(Above1())
     labels = ["shipped gas table", "shipped gas table, diffusivity in units 1e-17 times smaller", "shipped gas table with a constant user diffusivity column",
               "shipped gas table with its diffusivity values in reverse order (falling with pressure)",
